@@ -42,7 +42,7 @@ Step(e) ==
       [] e.op = "reopen" -> /\ files' = files /\ fpos' = 1 /\ viol' = viol
       [] e.op = "read" ->
            LET r0  == RefRead(files, fpos, e.name)
-               ref == IF r0.found THEN [r0 EXCEPT !.pieces = @] @@ [id |-> files[r0.next - 1].id, len |-> files[r0.next - 1].len]
+               ref == IF r0.found THEN r0 @@ [id |-> files[r0.next - 1].id, len |-> files[r0.next - 1].len]
                       ELSE r0
                v   == Verdict(e, ref)
            IN  /\ files' = files
